@@ -20,7 +20,7 @@ RULE = ("generated topologies: 3-6 atom types (optionally OPLS bond types with _
 ASSUMPTIONS = ["which formula belongs to which comb-rule number is not asserted",
                "ties between equally specific wildcard entries may resolve to either entry",
                "OSError is the documented 'no matching bonded type' channel"]
-BUDGET = {"quick": (16, 150), "thorough": (16, 5000)}
+BUDGET = {"quick": (16, 400), "thorough": (16, 8000)}
 EXHAUSTIVE = False
 
 TYPES = ["CA", "CB", "CC", "CD", "CE", "CF"]
